@@ -276,9 +276,21 @@ impl<K, V, A: Allocator> CaoHashMap<K, V, A> {
         for i in 0..capacity {
             let hash = *data.as_ptr().cast::<u64>().add(i);
             if hash != 0 {
-                let key = std::ptr::read(keys.as_ptr().add(i));
-                let val = std::ptr::read(values.as_ptr().add(i));
-                self.insert_with_hint(hash, key, val)?;
+                // the entries are distinct whatever their keys compare like by now (a key that is
+                // compared by content may have been changed after it was stored): move each one
+                // to the first free slot of its probe sequence without looking at the keys
+                let mut j = self.home_slot(hash);
+                while self.hashes()[j] != 0 {
+                    j = (j + 1) % self.capacity;
+                }
+                self.hashes_mut()[j] = hash;
+                std::ptr::copy_nonoverlapping(keys.as_ptr().add(i), self.keys.as_ptr().add(j), 1);
+                std::ptr::copy_nonoverlapping(
+                    values.as_ptr().add(i),
+                    self.values.as_ptr().add(j),
+                    1,
+                );
+                self.count += 1;
             }
         }
 
